@@ -15,6 +15,7 @@ import InTotoModel.Driver.RecordProto
 import InTotoModel.Driver.CodecProto
 import InTotoModel.Model.JsonText
 import InTotoModel.Model.AttestExt
+import InTotoModel.Model.Pem
 /-
   Executable model driver: one operation per input line, one canonical answer per line.
   Unknown or malformed operations answer `bad-op` (never a default).
@@ -71,6 +72,13 @@ def step (line : String) : String :=
       | some none => "reject"
       | some (some a) => "ok " ++ showJV (Json.norm (AttestCodec.encTop a))
     | _ => "bad-op"
+  | ["pem_dec", h] =>
+    match strOfHex h with
+    | some s =>
+      match Pem.parse s with
+      | some (tag, contents) => "ok " ++ hexOfStr tag ++ " " ++ hexOfBytes contents
+      | none => "none"
+    | none => "bad-op"
   | ["timestamp", h] =>
     match strOfHex h with
     | some s => match Time.normTimeStamp s with | some t => "ok " ++ hexOfStr t | none => "none"
